@@ -1,4 +1,4 @@
-# C10-numedit-upper: exit 1 on the current tree, 0 with the proposed patch
+# fixed by 5b80e0b (was known finding C10-numedit-upper): exit 1 before the fix, 0 after
 from urwid.numedit import IntegerEdit
 bad = 0
 for ch, base in (("ſ", 36), ("ı", 19), ("ﬆ", 30)):
